@@ -155,6 +155,24 @@ func genHubCase(rr *h.Rand, o *gen.Oracle, focus string) hubCase {
 		form := url.Values{"topic": {"https://example.com/users/other/payslips"}, "private": {"on"}, "data": {"secret"}, "id": {"collide"}}
 		cs.Ops = append(cs.Ops, hubOp{Op: "pub", Form: form, Claims: claimsJSON("publish", []string{"*"}, ""), Carrier: "header"})
 	}
+	if focus == "" && rr.Chance(1, 6) {
+		// topics of several hundred bytes that share a long prefix and differ only at the end, one matched by the
+		// subscriber's template and one not (in either order): the recipients must not depend on what was matched before
+		base := "https://example.com/"
+		long := strings.Repeat(h.Pick(rr, []string{"a", "ab", "x1"}), 300+rr.Intn(200))
+		cs.Ops = append(cs.Ops, hubOp{Op: "sub", Label: 2100, Topics: []string{base + "{id}"}, Claims: claimsJSON("subscribe", []string{base + "{id}"}, ""), Carrier: "header"})
+		t1, t2 := base+long, base+long+"/comments"
+		if rr.Bool() {
+			t1, t2 = t2, t1
+		}
+		for i, t := range []string{t1, t2, t1} {
+			form := url.Values{"topic": {t}, "data": {"d"}, "id": {fmt.Sprintf("long-%d", i)}}
+			if rr.Bool() {
+				form.Set("private", "on")
+			}
+			cs.Ops = append(cs.Ops, hubOp{Op: "pub", Form: form, Claims: claimsJSON("publish", []string{"*"}, ""), Carrier: "header"})
+		}
+	}
 	pubN := 0
 	for k := 0; k < nops; k++ {
 		x := rr.Intn(100)
